@@ -6362,7 +6362,11 @@ wuffs_private_impl__swizzle_transparent_black_src(
   if (n > num_pixels) {
     n = num_pixels;
   }
-  memset(dst_ptr, 0, ((size_t)(n * dst_pixfmt_bytes_per_pixel)));
+  // The (n > 0) avoids undefined behavior (passing a NULL pointer to memset)
+  // for an empty destination, such as wuffs_base__empty_slice_u8().
+  if (n > 0) {
+    memset(dst_ptr, 0, ((size_t)(n * dst_pixfmt_bytes_per_pixel)));
+  }
   return n;
 }
 
